@@ -13,6 +13,8 @@ enum Op {
     Set(u8, u8),
     Remove(u8),
     Truncate(u8),
+    /// n times set(0, <key 0 element>): a long run of updates in one go
+    BurstSet0(u8),
 }
 
 #[derive(Clone, Copy, Debug, PartialEq, Eq, Hash)]
@@ -127,6 +129,8 @@ struct Cfg {
     /// If non-empty: exactly these limits/counts are announced instead of
     /// 0..=max_limit.
     limit_values: Vec<u8>,
+    /// offer BurstSet0(n) for these n (needs a capacity above n)
+    bursts: Vec<u8>,
     /// Initial value of the limit Observable (Obs / ObsReset sources).
     obs_init: u8,
     /// Build the next stage directly on the adapter value (`adapter.filter(..)`)
@@ -207,12 +211,23 @@ fn op_effect(op: Op, nkeys: u8, v: &mut Vec<Kid>, next_id: &mut u16) {
                 v.truncate(n as usize)
             }
         }
+        Op::BurstSet0(n) => {
+            for _ in 0..n {
+                let e = fresh(next_id, 0);
+                v[0] = e;
+            }
+        }
     }
 }
 
 fn ops_for(len: u8, cfg: &Cfg, out: &mut Vec<Tok>) {
     let room = cfg.max_len.saturating_sub(len);
     let nk = cfg.nkeys;
+    if len > 0 {
+        for &n in &cfg.bursts {
+            out.push(Tok::Op(Op::BurstSet0(n)));
+        }
+    }
     match cfg.alphabet {
         Alphabet::Full => {
             if room >= 1 {
